@@ -992,5 +992,159 @@ impl FileSystemState {
 //@end
 }
 
+// ---------------- apply_file_system_operations (write_artifacts.rs): std::fs calls assumed ----------------
+#[verifier::external_body]
+pub struct IoError { p: core::marker::PhantomData<u8> }
+impl IoError {
+    /// `&e.to_string()`
+    #[verifier::external_body]
+    pub fn message(&self) -> (r: &str) { unimplemented!() }
+}
+#[verifier::external_body]
+pub struct LocationFreeDiagnostic { p: core::marker::PhantomData<u8> }
+pub type LocationFreeDiagnosticResult<T> = Result<T, LocationFreeDiagnostic>;
+#[verifier::external_body]
+pub fn unable_to_do_something_at_path_diagnostic(path: &PathBuf, message: &str, what: &str) -> LocationFreeDiagnostic { unimplemented!() }
+impl Path {
+    #[verifier::external_body]
+    pub fn exists(&self) -> bool { unimplemented!() }
+}
+impl FileContent {
+    #[verifier::external_body]
+    pub fn as_bytes(&self) -> (r: &[u8]) { unimplemented!() }
+}
+/// std::fs — effects on the real file system are outside the verifier; only the
+/// control flow around these calls is under contract
+pub mod fs {
+    use super::*;
+    #[verifier::external_body]
+    pub fn remove_dir_all(p: PathBuf) -> Result<(), IoError> { unimplemented!() }
+    #[verifier::external_body]
+    pub fn create_dir_all(p: PathBuf) -> Result<(), IoError> { unimplemented!() }
+    #[verifier::external_body]
+    pub fn write(p: PathBuf, contents: &[u8]) -> Result<(), IoError> { unimplemented!() }
+    #[verifier::external_body]
+    pub fn remove_file(p: PathBuf) -> Result<(), IoError> { unimplemented!() }
+}
+/// every WriteFile of the plan addresses an artifact of the list it is applied with
+pub open spec fn ops_indices_below(ops: Seq<FileSystemOperation>, n: int) -> bool {
+    forall|i: int| 0 <= i < ops.len() && (#[trigger] at(ops, i)) is WriteFile ==> at(ops, i)->WriteFile_1 < n
+}
+/// number of WriteFile / DeleteFile operations among the first k
+pub open spec fn count_rw(ops: Seq<FileSystemOperation>, k: int) -> nat
+    decreases k
+{
+    if k <= 0 { 0 } else {
+        count_rw(ops, k - 1) + (if at(ops, k - 1) is WriteFile || at(ops, k - 1) is DeleteFile { 1nat } else { 0nat })
+    }
+}
+pub proof fn lemma_count_rw_bound(ops: Seq<FileSystemOperation>, k: int)
+    requires 0 <= k
+    ensures count_rw(ops, k) <= k
+    decreases k
+{
+    if k > 0 { lemma_count_rw_bound(ops, k - 1); }
+}
+/// writes_sound / all_justified plans only carry indices stored in the state
+pub proof fn lemma_plan_indices_from_scratch(ops: Seq<FileSystemOperation>, st: &FileSystemState, d: Seq<int>, n: int)
+    requires writes_sound(ops, st, d, true), st.indices_below(n)
+    ensures ops_indices_below(ops, n)
+{
+    assert forall|i: int| 0 <= i < ops.len() && (#[trigger] at(ops, i)) is WriteFile implies at(ops, i)->WriteFile_1 < n by {
+        if exists|f: u64| st.has_root(f) && at(ops, i) == OpV::WriteFile(root_path(d, f), st.root_idx(f)) {
+            let f = choose|f: u64| st.has_root(f) && at(ops, i) == OpV::WriteFile(root_path(d, f), st.root_idx(f));
+            assert(st.has_root(f));
+        } else {
+            let (e, s, f) = choose|e: u64, s: u64, f: u64| st.has_nested(e, s, f) && at(ops, i) == OpV::WriteFile(nested_path(d, e, s, f), st.nested_idx(e, s, f));
+            assert(st.has_nested(e, s, f));
+        }
+    }
+}
+pub proof fn lemma_plan_indices_from_diff(ops: Seq<FileSystemOperation>, o: &FileSystemState, st: &FileSystemState, d: Seq<int>, n: int)
+    requires all_justified(ops, o, st, d), st.indices_below(n)
+    ensures ops_indices_below(ops, n)
+{
+    assert forall|i: int| 0 <= i < ops.len() && (#[trigger] at(ops, i)) is WriteFile implies at(ops, i)->WriteFile_1 < n by {
+        assert(op_justified(at(ops, i), o, st, d));
+        let x = at(ops, i);
+        if exists|f: u64| st.has_root(f) && root_needs_write(o, st, f) && x == OpV::WriteFile(root_path(d, f), st.root_idx(f)) {
+            let f = choose|f: u64| st.has_root(f) && root_needs_write(o, st, f) && x == OpV::WriteFile(root_path(d, f), st.root_idx(f));
+            assert(st.has_root(f));
+        } else {
+            let (e, s, f) = choose|e: u64, s: u64, f: u64| st.has_nested(e, s, f) && nested_needs_write(o, st, e, s, f) && x == OpV::WriteFile(nested_path(d, e, s, f), st.nested_idx(e, s, f));
+            assert(st.has_nested(e, s, f));
+        }
+    }
+}
+
+//@fn rel=crates/isograph_compiler/src/write_artifacts.rs name=apply_file_system_operations vis=pub ret=r serves=C18,C19
+//@rw R2 R6b
+//@sub "for operation in operations \{" => "for operation in ito: operations.iter() {" n=1
+//@sub "&e\.to_string\(\)" => "e.message()" n=*
+//@sub "let mut count = 0;" => "let mut count: usize = 0;" n=1
+//@contract
+    requires
+        // the plan was computed for exactly this artifact list (C18: the index of every
+        // planned write addresses it; otherwise `expect("index should be valid")` fires)
+        ops_indices_below(operations@, artifacts@.len() as int),
+    ensures
+        r is Ok ==> r->Ok_0 == count_rw(operations@, operations@.len() as int), //@O C18.O-4_apply_reports_number_of_written_or_deleted_files
+//@loop 1
+        invariant
+            ito.seq().len() == operations@.len(),
+            forall|k: int| 0 <= k < ito.seq().len() ==> *(#[trigger] ito.seq()[k]) == operations@[k],
+            count == count_rw(operations@, ito.index@ as int),
+            count <= ito.index@,
+            operations@.len() <= usize::MAX,
+            ops_indices_below(operations@, artifacts@.len() as int),
+//@before "let mut count"
+    proof { axiom_slice_len(operations); }
+//@bodystart 1
+        proof {
+            assert(ito.index@ < operations@.len());
+            assert(*operation == operations@[ito.index@ as int]);
+            assert(at(operations@, ito.index@ as int) == opv(*operation));
+            lemma_count_rw_bound(operations@, ito.index@ as int);
+        }
+//@end
+
+// ---------------- get_file_system_operations (write_artifacts.rs) against the VERIFIED contracts above ----------------
+//@fn rel=crates/isograph_compiler/src/write_artifacts.rs name=get_file_system_operations vis=pub ret=ops serves=C18,C19
+//@sub "paths_and_contents\.into\(\)" => "FileSystemState::from_artifacts(paths_and_contents)" n=*
+//@sub "let new_file_system_state =" => "let new_file_system_state: FileSystemState =" n=*
+//@rw R1 R4
+//@contract
+    ensures
+        // the state remembered for the next compile reflects exactly these artifacts
+        *final(file_system_state) is Some
+            && (*final(file_system_state))->Some_0.reflects(paths_and_contents@, paths_and_contents@.len() as int), //@O C18.O-5_remembered_state_reflects_the_new_artifacts
+        // every planned write addresses this artifact list (precondition of apply)
+        ops_indices_below(ops@, paths_and_contents@.len() as int), //@O C18.O-4_planned_writes_address_the_artifact_list
+        // nothing known about the directory: the from-scratch plan of the new state
+        *old(file_system_state) is None ==> {
+            let st = (*final(file_system_state))->Some_0;
+            wipes_first(ops@, artifact_directory@) && writes_sound(ops@, &st, artifact_directory@, true) && parents_created(ops@)
+                && roots_written(ops@, artifact_directory@, st.root_files@) && ents_written(ops@, artifact_directory@, st.nested_files@)
+        }, //@O C18+C19.O-2_unknown_directory_gets_the_from_scratch_plan
+        // otherwise: the diff between the remembered state and the new one
+        *old(file_system_state) is Some ==> {
+            let o = (*old(file_system_state))->Some_0;
+            let st = (*final(file_system_state))->Some_0;
+            all_justified(ops@, &o, &st, artifact_directory@) && writes_have_dirs(ops@, &o, artifact_directory@)
+                && all_w(ops@, &o, &st, artifact_directory@) && roots_w(ops@, &o, &st, artifact_directory@)
+                && all_d(ops@, &o, &st, artifact_directory@) && roots_d(ops@, &o, &st, artifact_directory@)
+        }, //@O C18.O-3_known_directory_gets_the_diff_plan
+//@before "*file_system_state ="
+    proof {
+        let n = paths_and_contents@.len() as int;
+        if *file_system_state is None {
+            lemma_plan_indices_from_scratch(operations@, &new_file_system_state, artifact_directory@, n);
+        } else {
+            let o = (*file_system_state)->Some_0;
+            lemma_plan_indices_from_diff(operations@, &o, &new_file_system_state, artifact_directory@, n);
+        }
+    }
+//@end
+
 } // verus!
 fn main() {}
